@@ -707,6 +707,10 @@ class Molecule(nx.Graph):
             A dict mapping the node indices of the added `molecule` to their
             new indices in this molecule.
         """
+        if molecule is self:
+            # Merging a molecule into itself: iterate over a snapshot, not over
+            # the very containers that are being extended.
+            molecule = self.copy()
         if self.force_field != molecule.force_field:
             raise ValueError(
                 'Cannot merge molecules with different force fields.'
